@@ -1,253 +1,268 @@
 # Claim table read by tools/gen_manifest.py. Only implemented, armed and quiet checks go here.
-CLAIMS = {
-    "C03": dict(
-        text="Hazards of the geometry/container layer are enumerated from MIR and each gets an "
-             "obligation: ~160 overflow/division asserts (intervals + guard facts; definite when "
-             "operands are caller-controlled and unguarded), crop validation (NaN, sign, upper "
-             "bounds, axis), construction of cropped views only behind check_crop_box, unchecked "
-             "row/column slices equal the view's own rectangle, nearest-neighbour index clamp "
-             "adequacy, bounded unchecked reads of static tables, every unwrap classified, "
-             "precision tables without holes, target-feature closure of dispatcher arms; in the "
-             "thorough tier also NEON/WASM configurations and type-level witnesses (unsafe "
-             "set_cpu_extensions, sealed InnerPixel, private internals). Does NOT decide in-kernel "
-             "index bounds, accumulator ranges or allocation failure; UNDECIDED obligations are "
-             "listed in the evidence and are not proofs.",
-        note="Free-atom premise: arguments of the safe API are unconstrained and independent of "
-             "object state; user ImageView impls honour the unsafe trait contract. 32-bit usize "
-             "(wasm) arithmetic is informational only.",
-        technique="static analysis: abstract interpretation over MIR (symbolic values, "
-                  "edge-dominance guard facts, intervals, call-site parameter ranges) + "
-                  "compile-fail witnesses",
-        witness=True,
-    ),
-    "C04": dict(
-        text="Validator obligations written from the property and checked on the Ok paths of "
-             "each constructor for all inputs: CroppedSrcImageView::crop establishes not-NaN, "
-             ">= 0 and same-axis upper bounds for all four fields; check_crop_box bounds "
-             "left+width / top+height without a wrapping sum; the six buffer-backed constructors "
-             "compare len with a width*height(*size) product that cannot wrap and check alignment; "
-             "from_buffer variants go through the alignment helper (head must be empty); every "
-             "aggregate of a cropped view is dominated by the success edge of check_crop_box with "
-             "matching field roles; all arithmetic asserts of crop_box.rs and images/*.rs. The "
-             "converse (nothing inside is rejected) is only covered through the exact forms "
-             "recognised; unrecognised forms become UNDECIDED.",
-        note="Accepted fact forms are enumerated in fircheck/engines/validators.py.",
-        technique="static analysis: guard-fact entailment on Ok-return paths (MIR), closure "
-                  "inlining for checked_mul/map_or, dominance of constructors by validators",
-    ),
-    "C05": dict(
-        text="Decides, for all paths of 25 entry points and all 54 per-format trait "
-             "implementations in every build configuration: each non-error, non-zero-size path "
-             "reaches a call that obtains mutable rows of the destination (must-write summaries "
-             "bottom-up over the call graph, trait calls over all impls); every row iterator of "
-             "the containers is bounded by the view's height or delegates. Does NOT decide that a "
-             "kernel's inner loops visit every column/row of the band they were given.",
-        note="Leaf write event = ImageViewMut::{iter_rows_mut,iter_N_rows_mut,split_by_*_mut}; "
-             "what a kernel does with the rows is not analysed. Zero-size guards are recognised "
-             "as comparisons of width()/height()/crop fields with 0.",
-        technique="static analysis: must-pass-through on MIR CFG with alias tracking + "
-                  "interprocedural must-write summaries; data-dependence of returned iterators",
-    ),
-    "C06": dict(
-        text="Clauses decided for all inputs and, in the thorough tier, for the NEON and SIMD128 "
-             "code that cannot run in this sandbox: the five MulDiv tables and is_supported equal "
-             "the set of AlphaMulDiv impls; every value stored by a SIMD division routine is derived "
-             "from the quotient through a saturating narrowing of the component width (expression "
-             "DAG cut at packus/min-with-constant/vqmovn/narrow nodes, callees inlined); the "
-             "operand of every wrapping float->int conversion in x86/wasm division primitives is "
-             "bounded below 2^31 (lane-interval evaluation through masks, byte shuffles, "
-             "unpack-with-zero); native routines copy the alpha component; two-image and in-place "
-             "variants reach the same primitives; arithmetic of div_and_clip{,16} against the "
-             "reciprocal tables' maxima cannot overflow. Does NOT decide exact rounding of "
-             "mul_div_255/65535 nor faithfulness of the reciprocals.",
-        note="Intrinsic classification tables (saturating / arithmetic / load) are in "
-             "fircheck/engines/deps.py; lane bounds assume alpha >= 1 (alpha == 0 is the "
-             "kernels' documented indefinite-value path).",
-        technique="static analysis: data-dependence (derived-through) over symbolic expression "
-                  "DAGs of MIR with callee inlining + interval evaluation of SIMD lanes",
-    ),
-    "C09": dict(
-        text="Scratch-buffer discipline decided on all paths: each of the 4 scratch images "
-             "(premultiply, two temp images of the two-pass convolution, supersampling) is the "
-             "destination of a must-write operation before any read (dominance); "
-             "get_temp_image_from_buffer sizes count*size + size() bytes, grows only, uses the "
-             "aligned middle part and slices exactly width*height pixels for an image of the same "
-             "dimensions; the premultiply scratch has the multiplied view's size. Does NOT decide "
-             "that writers fill every pixel (C05's kernel-internal part) nor compares runs.",
-        note="Writer = callee with a must-write summary (C05) on the scratch parameter.",
-        technique="static analysis: write-before-read typestate via dominators + must-write "
-                  "summaries; structural matching of the sizing expression (MIR)",
-    ),
-    "C07": dict(
-        text="Typestate of the alpha pipeline in Resizer::resample_convolution, decided on all CFG "
-             "paths: premultiply only under use_alpha && is_supported; on its success edge the "
-             "only convolution reads the premultiplied scratch image (with the original crop box) "
-             "and is followed on every path by exactly one divide of the destination; no divide "
-             "anywhere else; other convolutions read the original view; Nearest/copy reach no "
-             "alpha code; the five MulDiv pixel-type tables equal the set of AlphaMulDiv impls. "
-             "Does NOT decide the metamorphic equalities (independence of colours under alpha 0).",
-        note="Anchors by def-path (resample_convolution, multiply_alpha_typed, do_convolution, "
-             "divide_alpha*); unrecognised shapes become UNDECIDED.",
-        technique="static analysis: dominance / must-pass-through typestate on MIR CFG, "
-                  "call-graph reachability, enum-table comparison",
-    ),
-    "C08": dict(
-        text="On the rayon configuration (x86 and aarch64), for all 50 expansions of the threading "
-             "macros: the threaded branch hands the source offset to the split and 0 to the "
-             "per-band operation, the sequential branch hands it to the operation, both call the "
-             "same operation with the same remaining arguments and images; horizontal passes and "
-             "alpha operations split by height, vertical passes by width; source and destination "
-             "are split with the same size and part count on the same axis; band-count arithmetic "
-             "cannot overflow; split guards hold in all 17 split implementations; the aliasing "
-             "handle UnsafeImageMut is created only inside the default mutable splits and is the "
-             "only unsafe Send/Sync impl (witnesses W3, W5 in the thorough tier). Does NOT decide "
-             "disjointness of the band rectangles (loop-carried sums) nor anything about "
-             "scheduling at run time.",
-        note="Schedule independence is argued structurally: bands are disjoint views created by "
-             "the splits (C14) and each band runs the sequential operation; the arithmetic heart "
-             "(part sizes sum to the band) is not proved.",
-        technique="static analysis: call-site agreement between macro-expanded sibling branches "
-                  "(MIR), closure capture substitution, guard-fact entailment",
-        witness=True,
-    ),
-    "C13": dict(
-        text="Decides the conditions under which a container could influence a result at all: no "
-             "kernel or typed entry point (465 signatures) names a concrete container type, so "
-             "kernels observe images only through ImageView/ImageViewMut (parametricity; W6 in the "
-             "thorough tier); contiguous containers yield rows of exactly self.width pixels from "
-             "start_row*self.width, cropped views yield [left, left+width) of rows top+start_row "
-             "bounded by height; the 15 dynamic entry points do no pixel processing of their own; "
-             "inside kernels no align_to with a stricter alignment than the row element and no "
-             "pointer inspection (address independence). Does NOT decide that the specialised "
-             "overrides (iter_rows_with_step, slice splits) equal the trait defaults, nor any "
-             "equality between two runs; row-end over-reads belong to the load-width rule.",
-        note="Parametricity argument: Rust generics without specialisation/TypeId; the unsafe "
-             "trait contract (rows >= width) is assumed for user views.",
-        technique="static analysis: signature scan of the type-checked program, structural "
-                  "matching of row iterators, call-graph purity of dispatchers, intrinsic/cast "
-                  "scan; compile-fail witness",
-        witness=True,
-    ),
-    "C14": dict(
-        text="For all 17 split implementations: parts are returned only after num_parts <= size "
-             "<= extent and start <= extent - size on the split axis (or pure delegation); loop "
-             "splits push exactly one part per iteration of 0..num_parts, wrapping splits map "
-             "inner parts one-to-one; cropped views forward start + own offset and re-wrap parts "
-             "with their own offset/extent on the other axis; slice-based splits cut rows of "
-             "self.width pixels; UnsafeImageMut handles are confined to the default mutable "
-             "splits; all arithmetic asserts in split code classified. Does NOT decide that part "
-             "sizes differ by at most one and sum to the band (loop-carried arithmetic).",
-        note="Exact-tiling arithmetic inside the loops is listed as UNDECIDED obligations.",
-        technique="static analysis: guard-fact entailment on Some-return paths, loop structure "
-                  "(dominators/natural loops), argument-role comparison across wrappers",
-        witness=True,
-    ),
-    "C12": dict(
-        text="Decides the structure of the same-size fast path: every resampler call in "
-             "resize_typed is dominated by the failure edge of copy_image and the success edge "
-             "returns without touching the destination again; copy_image returns Ok only under "
-             "the four integrality facts and both same-axis dimension equalities and copies rows "
-             "with copy_from_slice into iter_rows_mut(0); the need_horizontal/need_vertical "
-             "decisions depend only on their own axis; do_convolution writes on every "
-             "non-degenerate path (incl. the no-pass arm). Bit equality itself is not decided.",
-        note="Facts are branch conditions on dominating edges (no path enumeration).",
-        technique="static analysis: edge-dominance facts + must-write summaries on MIR",
-    ),
-    "C01": dict(
-        text="Only the plumbing any correct two-pass separable resampler needs is decided, on all "
-             "paths: X/Y kind inference shows every precompute_coefficients call gets inputs of "
-             "one axis, horizontal coefficients reach only horiz_convolution and vertical ones "
-             "only vert_convolution, pass offsets are of the other axis, temp images are "
-             "(X extent, Y extent); ResizeAlg arms route to the right resampler with the right "
-             "adaptive flag; each built-in filter's declared support covers the cut-off its kernel "
-             "function compares with; window start/end are clamped to [0, in_size] and weights "
-             "are normalised. The numerical error bound of the property is NOT decided.",
-        note="Kind sources are getter/field/parameter names (width/left/col vs height/top/row).",
-        technique="static analysis: abstract interpretation over an X/Y kind lattice on MIR "
-                  "expressions with closure substitution; enum-table and constant extraction",
-    ),
-    "C11": dict(
-        text="Decides: the column table of resample_nearest is built from horizontal quantities "
-             "only and rows are stepped with vertical ones only; the unchecked column index is "
-             "the pretabulated entry itself, clamped with width-1 of the view whose rows are "
-             "read; the stored pixel is a loaded pixel with no arithmetic; no alpha code is "
-             "reachable. Does NOT decide the index formula against floor(left+(x+0.5)*scale) nor "
-             "the agreement of the two iter_rows_with_step implementations.",
-        note="Clamp adequacy is a stated-belief rule (a bound equal to the row length is "
-             "reachable by the author's own reckoning).",
-        technique="static analysis: kind inference + iterator-source tracing + dependence "
-                  "(copy-only) on MIR",
-    ),
-    "C15": dict(
-        text="Decides for fit_src_into_dst_size: left depends on centering.0 and the width margin "
-             "only, top on centering.1 and the height margin only; both centering components are "
-             "clamped to [0,1]; on each of the three ratio branches one crop dimension is the "
-             "full source dimension; get_crop_box passes (src w, src h, dst w, dst h) in order. "
-             "Does NOT decide in-bounds under floating-point rounding or aspect accuracy.",
-        note="Local names crop_width/crop_height/centering are anchors (CHECK-ERROR/UNDECIDED if "
-             "renamed).",
-        technique="static analysis: data-dependence and branch-wise definitions on MIR",
-    ),
-    "C16": dict(
-        text="Decides: the four built-in transfer functions are non-decreasing on [0,1] and the "
-             "table-entry expression of MappingTable::new is non-decreasing in the index for any "
-             "non-decreasing transfer function (piecewise abstract interpretation over "
-             "monotonicity x interval); map_with_gaps is called with gap step N exactly in the arm "
-             "for N components and sends the alpha position through into_component, everything "
-             "else through the table; all 16 map_image calls are dominated by the width and "
-             "height comparisons. Does NOT decide that entries equal the rounded transfer "
-             "function, the endpoints, or the 8->16->8 round trip.",
-        note="powf/exp/round/clamp transfer functions are part of the trusted tables; const "
-             "generic SIZE is assumed >= 2.",
-        technique="static analysis: abstract interpretation (monotonicity x interval, input "
-                  "partitioned at compared constants) + guard dominance on MIR",
-    ),
-    "C17": dict(
-        text="Decides monotonicity of all 13 IntoPixelComponent impls by piecewise abstract "
-             "interpretation (casts, shifts, clamp, saturating_add, byte extraction, division by "
-             "constants with sign), including definite non-monotonicity (division of the negative "
-             "half by a negative constant: two known findings; wrapping narrowings); the typed "
-             "entry point writes only after both dimension equalities; W4 (thorough): different "
-             "component counts do not type-check. Endpoint values and widening round trips are "
-             "NOT decided.",
-        note="Verdict 'decreasing' needs a non-degenerate output interval on a non-degenerate "
-             "input piece.",
-        technique="static analysis: abstract interpretation (monotonicity x interval) on MIR + "
-                  "compile-fail witness",
-        witness=True,
-    ),
-    "C18": dict(
-        text="Decides the three mechanisms the property names: Box/Bilinear/Hamming/Gaussian "
-             "kernel functions return values in [0, inf) on every piece of their domain; pixel "
-             "data is never sign-extended before the signed multiply-add (intrinsic scan of all "
-             "kernel modules + constant shuffle masks); every destination store of the 8/16-bit "
-             "SIMD convolution kernels passes a saturating narrowing of the component width (all "
-             "back-ends in the thorough tier). Accumulator wrap and monotonicity of the "
-             "shift/round pipeline on runtime values are NOT decided.",
-        note="sin is bounded by [0,1] on [0,pi], cos by [-1,1]; intrinsic tables in "
-             "fircheck/engines/{deps,simd_rules}.py.",
-        technique="static analysis: interval evaluation of scalar kernels + data-dependence "
-                  "(derived-through / never-through) over MIR expression DAGs",
-    ),
-    "C02": dict(
-        text="Structural necessary conditions for SIMD == native, decided for all paths and build "
-             "configurations (x86, x86+rayon, aarch64/NEON, wasm32/SIMD128): every CpuExtensions "
-             "dispatcher routes each variant to the kernel of the matching back-end module with the "
-             "arguments of the native arm, no SIMD kernel is shared by two operations or named like "
-             "another operation's native kernel; target-feature closure of each arm is implied by "
-             "the variant; precision tables (constify_imm8!) cover the normaliser's precision "
-             "interval without holes, arm k instantiates PRECISION=k, no producible arm is empty; "
-             "every destination store of an 8/16-bit SIMD convolution kernel is derived from the "
-             "accumulator through a saturating narrowing of the component width; pixel data is "
-             "never sign-extended (no sign-extending widening intrinsic, shuffle masks feeding "
-             "madd_epi16 zero the high byte of each lane). "
-             "Bit equality of the computed pixels is NOT decided.",
-        note="Trusted: rustc type checker/MIR, firdrv, back-end module naming (avx2/sse4/neon/"
-             "wasm32/native). Numerical equality of kernels is out of reach of this technique.",
-        technique="static analysis: dispatch-table extraction from MIR SwitchInt + call-graph "
-                  "feature closure + interval analysis of the precision selector",
-    ),
-}
+CLAIMS = {'C03': {'text': 'Hazards of the geometry/container layer are enumerated from MIR and each gets an '
+                 'obligation: ~160 overflow/division asserts (intervals + guard facts; definite '
+                 'when operands are caller-controlled and unguarded), crop validation (NaN, sign, '
+                 'upper bounds, axis), construction of cropped views only behind check_crop_box, '
+                 "unchecked row/column slices equal the view's own rectangle, nearest-neighbour "
+                 'index clamp adequacy, bounded unchecked reads of static tables, every unwrap '
+                 'classified, guard adequacy of every SIMD helper load (bytes read vs. elements '
+                 'the dominating guard / chunk loop leaves), precision tables without holes, '
+                 'target-feature closure of dispatcher arms; in the thorough tier also NEON/WASM '
+                 'configurations and type-level witnesses (unsafe set_cpu_extensions, sealed '
+                 'InnerPixel, private internals). Does NOT decide in-kernel index bounds, '
+                 'accumulator ranges or allocation failure; UNDECIDED obligations are listed in '
+                 'the evidence and are not proofs.',
+         'note': 'Free-atom premise: arguments of the safe API are unconstrained and independent '
+                 'of object state; user ImageView impls honour the unsafe trait contract. 32-bit '
+                 'usize (wasm) arithmetic is informational only.',
+         'technique': 'static analysis: abstract interpretation over MIR (symbolic values, '
+                      'edge-dominance guard facts, intervals, call-site parameter ranges) + '
+                      'compile-fail witnesses',
+         'witness': True},
+ 'C04': {'text': 'Validator obligations written from the property and checked on the Ok paths of '
+                 'each constructor for all inputs: CroppedSrcImageView::crop establishes not-NaN, '
+                 '>= 0 and same-axis upper bounds for all four fields; check_crop_box bounds '
+                 'left+width / top+height without a wrapping sum; the six buffer-backed '
+                 'constructors compare len with a width*height(*size) product that cannot wrap and '
+                 'check alignment; from_buffer variants go through the alignment helper (head must '
+                 'be empty); every aggregate of a cropped view is dominated by the success edge of '
+                 'check_crop_box with matching field roles; all arithmetic asserts of crop_box.rs '
+                 'and images/*.rs. The converse (nothing inside is rejected) is only covered '
+                 'through the exact forms recognised; unrecognised forms become UNDECIDED.',
+         'note': 'Accepted fact forms are enumerated in fircheck/engines/validators.py.',
+         'technique': 'static analysis: guard-fact entailment on Ok-return paths (MIR), closure '
+                      'inlining for checked_mul/map_or, dominance of constructors by validators'},
+ 'C05': {'text': 'Decides, for all paths of 25 entry points and all 54 per-format trait '
+                 'implementations in every build configuration: each non-error, non-zero-size path '
+                 'reaches a call that obtains mutable rows of the destination (must-write '
+                 'summaries bottom-up over the call graph, trait calls over all impls); every row '
+                 "iterator of the containers is bounded by the view's height or delegates.; every "
+                 'group-of-N row loop of the per-format wrappers is followed by a tail loop over '
+                 'the rows height - height % N.., so no destination row is left out; mutable '
+                 'cropped views hand out only rows top+start.. limited by height-start and columns '
+                 "[left, left+width). Does NOT decide that a kernel's inner column loops visit "
+                 'every column.',
+         'note': 'Leaf write event = ImageViewMut::{iter_rows_mut,iter_N_rows_mut,split_by_*_mut}; '
+                 'what a kernel does with the rows is not analysed. Zero-size guards are '
+                 'recognised as comparisons of width()/height()/crop fields with 0.',
+         'technique': 'static analysis: must-pass-through on MIR CFG with alias tracking + '
+                      'interprocedural must-write summaries; data-dependence of returned '
+                      'iterators; structural row-coverage rule (group loop + tail loop)'},
+ 'C06': {'text': 'Clauses decided for all inputs and, in the thorough tier, for the NEON and '
+                 'SIMD128 code that cannot run in this sandbox: the five MulDiv tables and '
+                 'is_supported equal the set of AlphaMulDiv impls; every value stored by a SIMD '
+                 'division routine is derived from the quotient through a saturating narrowing of '
+                 'the component width (expression DAG cut at '
+                 'packus/min-with-constant/vqmovn/narrow nodes, callees inlined); the operand of '
+                 'every wrapping float->int conversion in x86/wasm division primitives is bounded '
+                 'below 2^31 (lane-interval evaluation through masks, byte shuffles, '
+                 'unpack-with-zero); native routines copy the alpha component; two-image and '
+                 'in-place variants reach the same primitives; arithmetic of div_and_clip{,16} '
+                 "against the reciprocal tables' maxima cannot overflow.; every integer multiply "
+                 'primitive of every back-end (52 functions incl. the NEON helpers and '
+                 'mul_div_255/65535) computes round(c*a/max) by the exact idiom (t + (t >> k)) >> '
+                 'k, t = c*a + 2^(k-1) (normal form of the lane expression DAG; the classical '
+                 'wrong variants are violations, other forms undecided); a per-lane primitive '
+                 'returns its input unchanged only under an all-lanes predicate. Does NOT decide '
+                 'faithfulness of the reciprocal tables nor the float paths.',
+         'note': 'Intrinsic classification tables (saturating / arithmetic / load) are in '
+                 'fircheck/engines/deps.py; lane bounds assume alpha >= 1 (alpha == 0 is the '
+                 "kernels' documented indefinite-value path).",
+         'technique': 'static analysis: data-dependence (derived-through) over symbolic expression '
+                      'DAGs of MIR with callee inlining + interval evaluation of SIMD lanes + '
+                      'normal-form matching of the rounded-division idiom'},
+ 'C09': {'text': 'Scratch-buffer discipline decided on all paths: each of the 4 scratch images '
+                 '(premultiply, two temp images of the two-pass convolution, supersampling) is the '
+                 'destination of a must-write operation before any read (dominance); '
+                 'get_temp_image_from_buffer sizes count*size + size() bytes, grows only, uses the '
+                 'aligned middle part and slices exactly width*height pixels for an image of the '
+                 "same dimensions; the premultiply scratch has the multiplied view's size. Does "
+                 "NOT decide that writers fill every pixel (C05's kernel-internal part) nor "
+                 'compares runs.',
+         'note': 'Writer = callee with a must-write summary (C05) on the scratch parameter.',
+         'technique': 'static analysis: write-before-read typestate via dominators + must-write '
+                      'summaries; structural matching of the sizing expression (MIR)'},
+ 'C07': {'text': 'Typestate of the alpha pipeline in Resizer::resample_convolution, decided on all '
+                 'CFG paths: premultiply only under use_alpha && is_supported; on its success edge '
+                 'the only convolution reads the premultiplied scratch image (with the original '
+                 'crop box) and is followed on every path by exactly one divide of the '
+                 'destination; no divide anywhere else; other convolutions read the original view; '
+                 'Nearest/copy reach no alpha code; the five MulDiv pixel-type tables equal the '
+                 'set of AlphaMulDiv impls.; no SIMD multiply/divide primitive returns its input '
+                 'early under a predicate that holds as soon as one lane matches (any-lane fast '
+                 'path). Does NOT decide the metamorphic equalities (independence of colours under '
+                 'alpha 0).',
+         'note': 'Anchors by def-path (resample_convolution, multiply_alpha_typed, do_convolution, '
+                 'divide_alpha*); unrecognised shapes become UNDECIDED.',
+         'technique': 'static analysis: dominance / must-pass-through typestate on MIR CFG, '
+                      'call-graph reachability, enum-table comparison'},
+ 'C08': {'text': 'On the rayon configuration (x86 and aarch64), for all 50 expansions of the '
+                 'threading macros: the threaded branch hands the source offset to the split and 0 '
+                 'to the per-band operation, the sequential branch hands it to the operation, both '
+                 'call the same operation with the same remaining arguments and images; horizontal '
+                 'passes and alpha operations split by height, vertical passes by width; source '
+                 'and destination are split with the same size and part count on the same axis; '
+                 'band-count arithmetic cannot overflow; split guards hold in all 17 split '
+                 'implementations and the cropped views forward start+top / start+left on the '
+                 'matching axis; the aliasing handle UnsafeImageMut is created only inside the '
+                 'default mutable splits and is the only unsafe Send/Sync impl (witnesses W3, W5 '
+                 'in the thorough tier). Does NOT decide disjointness of the band rectangles '
+                 '(loop-carried sums) nor anything about scheduling at run time.',
+         'note': 'Schedule independence is argued structurally: bands are disjoint views created '
+                 'by the splits (C14) and each band runs the sequential operation; the arithmetic '
+                 'heart (part sizes sum to the band) is not proved.',
+         'technique': 'static analysis: call-site agreement between macro-expanded sibling '
+                      'branches (MIR), closure capture substitution, guard-fact entailment',
+         'witness': True},
+ 'C13': {'text': 'Decides the conditions under which a container could influence a result at all: '
+                 'no kernel or typed entry point (465 signatures) names a concrete container type, '
+                 'so kernels observe images only through ImageView/ImageViewMut (parametricity; W6 '
+                 'in the thorough tier); contiguous containers yield rows of exactly self.width '
+                 'pixels from start_row*self.width, cropped views yield [left, left+width) of rows '
+                 'top+start_row bounded by height; a cropped view overrides no other row iterator '
+                 'in a way that mixes its integer offset into a floating-point row position; the '
+                 '15 dynamic entry points do no pixel processing of their own; inside kernels no '
+                 'align_to with a stricter alignment than the row element and no pointer '
+                 'inspection (address independence). Does NOT decide that the specialised '
+                 'overrides (iter_rows_with_step, slice splits) equal the trait defaults, nor any '
+                 'equality between two runs; row-end over-reads are decided by the load-width rule '
+                 '(C13.row-end).',
+         'note': 'Parametricity argument: Rust generics without specialisation/TypeId; the unsafe '
+                 'trait contract (rows >= width) is assumed for user views.',
+         'technique': 'static analysis: signature scan of the type-checked program, structural '
+                      'matching of row iterators, call-graph purity of dispatchers, intrinsic/cast '
+                      'scan; compile-fail witness',
+         'witness': True},
+ 'C14': {'text': 'For all 17 split implementations: parts are returned only after num_parts <= '
+                 'size <= extent and start <= extent - size on the split axis (or pure '
+                 'delegation); loop splits push exactly one part per iteration of 0..num_parts, '
+                 'wrapping splits map inner parts one-to-one; cropped views forward start + own '
+                 'offset and re-wrap parts with their own offset/extent on the other axis; '
+                 'slice-based splits cut rows of self.width pixels; UnsafeImageMut handles are '
+                 'confined to the default mutable splits; all arithmetic asserts in split code '
+                 'classified. Does NOT decide that part sizes differ by at most one and sum to the '
+                 'band (loop-carried arithmetic).',
+         'note': 'Exact-tiling arithmetic inside the loops is listed as UNDECIDED obligations.',
+         'technique': 'static analysis: guard-fact entailment on Some-return paths, loop structure '
+                      '(dominators/natural loops), argument-role comparison across wrappers',
+         'witness': True},
+ 'C12': {'text': 'Decides the structure of the same-size fast path: every resampler call in '
+                 'resize_typed is dominated by the failure edge of copy_image and the success edge '
+                 'returns without touching the destination again; copy_image returns Ok only under '
+                 'the four integrality facts and both same-axis dimension equalities and copies '
+                 'rows with copy_from_slice into iter_rows_mut(0); the '
+                 'need_horizontal/need_vertical decisions depend only on their own axis; '
+                 'do_convolution writes on every non-degenerate path (incl. the no-pass arm).; the '
+                 'nearest pre-step of SuperSampling is taken only under min(width_scale, '
+                 'height_scale)/multiplicity > c >= 1, i.e. never when one dimension already '
+                 'matches. Bit equality itself is not decided.',
+         'note': 'Facts are branch conditions on dominating edges (no path enumeration).',
+         'technique': 'static analysis: edge-dominance facts + must-write summaries on MIR'},
+ 'C01': {'text': 'Only the plumbing any correct two-pass separable resampler needs is decided, on '
+                 'all paths: X/Y kind inference shows every precompute_coefficients call gets '
+                 'inputs of one axis, horizontal coefficients reach only horiz_convolution and '
+                 'vertical ones only vert_convolution, pass offsets are of the other axis, temp '
+                 'images are (X extent, Y extent); ResizeAlg arms route to the right resampler '
+                 "with the right adaptive flag; each built-in filter's declared support covers the "
+                 'cut-off its kernel function compares with; window start/end are clamped to [0, '
+                 'in_size] and weights are normalised. The numerical error bound of the property '
+                 'is NOT decided.',
+         'note': 'Kind sources are getter/field/parameter names (width/left/col vs '
+                 'height/top/row).',
+         'technique': 'static analysis: abstract interpretation over an X/Y kind lattice on MIR '
+                      'expressions with closure substitution; enum-table and constant extraction'},
+ 'C11': {'text': 'Decides: the column table of resample_nearest is built from horizontal '
+                 'quantities only and rows are stepped with vertical ones only; the unchecked '
+                 'column index is the pretabulated entry itself, clamped with width-1 of the view '
+                 'whose rows are read (a bound that depends on the crop box is a violation); the '
+                 'stored pixel is a loaded pixel with no arithmetic; no alpha code is reachable. '
+                 'Does NOT decide the index formula against floor(left+(x+0.5)*scale) nor the '
+                 'agreement of the two iter_rows_with_step implementations.',
+         'note': 'Clamp adequacy is a stated-belief rule (a bound equal to the row length is '
+                 "reachable by the author's own reckoning).",
+         'technique': 'static analysis: kind inference + iterator-source tracing + dependence '
+                      '(copy-only) on MIR'},
+ 'C15': {'text': 'Decides for fit_src_into_dst_size: left depends on centering.0 and the width '
+                 'margin only, top on centering.1 and the height margin only; both centering '
+                 'components are clamped to [0,1]; on each of the three ratio branches one crop '
+                 'dimension is the full source dimension; get_crop_box passes (src w, src h, dst '
+                 'w, dst h) in order.; a crop dimension computed from the ratios is assigned only '
+                 'under a strict ratio comparison (or after the approximately-equal branch) or '
+                 'clamped, so fl(ratio*height) cannot exceed the source width. Does NOT decide '
+                 'aspect accuracy nor sizes beyond 2^26 per side.',
+         'note': 'Local names crop_width/crop_height/centering are anchors (CHECK-ERROR/UNDECIDED '
+                 'if renamed).',
+         'technique': 'static analysis: data-dependence and branch-wise definitions on MIR'},
+ 'C16': {'text': 'Decides: the four built-in transfer functions are non-decreasing on [0,1] and '
+                 'the table-entry expression of MappingTable::new is non-decreasing in the index '
+                 'for any non-decreasing transfer function (piecewise abstract interpretation over '
+                 'monotonicity x interval); map_with_gaps is called with gap step N exactly in the '
+                 'arm for N components and sends the alpha position through into_component, '
+                 'everything else through the table; all 16 map_image calls are dominated by the '
+                 'width and height comparisons.; each transfer function maps 0 to 0 and 1 to 1, '
+                 'its pieces meet at every breakpoint (jump <= 1e-6; > 2 16-bit steps is a '
+                 'violation) and the backward function undoes the forward one at the breakpoints '
+                 '(interval evaluation at constant points). Does NOT decide that every entry '
+                 'equals the rounded transfer function nor the 8->16->8 round trip as such.',
+         'note': 'powf/exp/round/clamp transfer functions are part of the trusted tables; const '
+                 'generic SIZE is assumed >= 2.',
+         'technique': 'static analysis: abstract interpretation (monotonicity x interval, input '
+                      'partitioned at compared constants) + guard dominance on MIR'},
+ 'C17': {'text': 'Decides monotonicity of all 13 IntoPixelComponent impls by piecewise abstract '
+                 'interpretation (casts, shifts, clamp, saturating_add, byte extraction, division '
+                 'by constants with sign), including definite non-monotonicity (division of the '
+                 'negative half by a negative constant: two known findings; wrapping narrowings); '
+                 'the typed entry point writes only after both dimension equalities; W4 '
+                 '(thorough): different component counts do not type-check. Endpoint values and '
+                 'widening round trips are NOT decided.',
+         'note': "Verdict 'decreasing' needs a non-degenerate output interval on a non-degenerate "
+                 'input piece.',
+         'technique': 'static analysis: abstract interpretation (monotonicity x interval) on MIR + '
+                      'compile-fail witness',
+         'witness': True},
+ 'C18': {'text': 'Decides the three mechanisms the property names: Box/Bilinear/Hamming/Gaussian '
+                 'kernel functions return values in [0, inf) on every piece of their domain; pixel '
+                 'data is never sign-extended before the signed multiply-add (intrinsic scan of '
+                 'all kernel modules + constant shuffle masks); every destination store of the '
+                 '8/16-bit SIMD convolution kernels passes a saturating narrowing of the component '
+                 'width (all back-ends in the thorough tier).; the rounding term that reaches '
+                 'every final shift / clip is exactly 1 << (precision-1) in every lane (x86: 121 '
+                 'sinks, NEON 68, SIMD128 65), so rounding never adds more than half a unit. '
+                 'Accumulator wrap and monotonicity of the shift/round pipeline on runtime values '
+                 'are NOT decided.',
+         'note': 'sin is bounded by [0,1] on [0,pi], cos by [-1,1]; intrinsic tables in '
+                 'fircheck/engines/{deps,simd_rules}.py.',
+         'technique': 'static analysis: interval evaluation of scalar kernels + data-dependence '
+                      '(derived-through / never-through) over MIR expression DAGs + lane-level '
+                      'abstract interpretation of accumulator rounding content'},
+ 'C02': {'text': 'Structural necessary conditions for SIMD == native, decided for all paths and '
+                 'build configurations (x86, x86+rayon, aarch64/NEON, wasm32/SIMD128): every '
+                 'CpuExtensions dispatcher routes each variant to the kernel of the matching '
+                 'back-end module with the arguments of the native arm, no SIMD kernel is shared '
+                 "by two operations or named like another operation's native kernel; "
+                 'target-feature closure of each arm is implied by the variant; precision tables '
+                 "(constify_imm8!) cover the normaliser's precision interval without holes, arm k "
+                 'instantiates PRECISION=k, no producible arm is empty; every destination store of '
+                 'an 8/16-bit SIMD convolution kernel is derived from the accumulator through a '
+                 'saturating narrowing of the component width; pixel data is never sign-extended '
+                 '(no sign-extending widening intrinsic, shuffle masks feeding madd_epi16 zero the '
+                 'high byte of each lane).; every per-format wrapper that feeds a group-of-N '
+                 'kernel also runs a one-row tail loop from height - height % N (no row is skipped '
+                 'or paired with the wrong source row); every (buffer, index) vector load of a '
+                 'kernel reads at most what its loop guard, cursor-aligned coefficient chunk or '
+                 "destination chunk leaves (load widths derived from the helpers' bodies); the "
+                 'rounding constants that reach each final normalisation total exactly half an '
+                 'output unit in every lane (lane-level rounding budget through horizontal adds, '
+                 'extractions, stores/reloads and helper calls). Bit equality of the computed '
+                 'pixels is NOT decided.',
+         'note': 'Trusted: rustc type checker/MIR, firdrv, back-end module naming '
+                 '(avx2/sse4/neon/wasm32/native). Numerical equality of kernels is out of reach of '
+                 'this technique.',
+         'technique': 'static analysis: dispatch-table extraction from MIR SwitchInt + call-graph '
+                      'feature closure + interval analysis of the precision selector + '
+                      'data-dependence over expression DAGs + available-fact guard adequacy of '
+                      'loads + lane-level abstract interpretation of accumulator rounding content'}}
+
 NOT_APPLICABLE = {
     "C10": "partition of unity of quantised runtime weight vectors is an arithmetic identity over "
            "runtime values (sum of individually rounded f64->i16 conversions); no abstract domain "
